@@ -238,12 +238,34 @@ close_sock(int si)
 	return rv;
 }
 
+// socket slot si is reused for a new socket: the pipes of the old one have been judged against
+// its close already (ledger_final looks at closed_at of the slot), so do that part now
+static void ledger_final(void);
+static void
+ledger_socket_reopened(int si)
+{
+	for (int i = 0; i < NPI; i++)
+		if (PI[i].sock == si && (PI[i].mask & B_POST) &&
+		    (!(PI[i].mask & B_REM) || PI[i].at[NNG_PIPE_EV_REM_POST] >= closed_at[si]))
+			vs_fail("C14:missing-rem-post",
+			    "socket %c pipe #%d got ADD_POST but no REM_POST before nng_socket_close "
+			    "returned (history %s)",
+			    'A' + si, pi_ord(&PI[i]), pi_hist(&PI[i]));
+	// forget them: the slot's close position will be overwritten
+	for (int i = 0; i < NPI; i++)
+		if (PI[i].sock == si)
+			PI[i].sock = 9;
+	closed_at[si] = -1;
+}
+
 // after all sockets are closed and the library is quiescent
 static void
 ledger_final(void)
 {
 	for (int i = 0; i < NPI; i++) {
 		pinfo *p = &PI[i];
+		if (p->sock == 9)
+			continue; // judged when its socket slot was reused
 		if (closed_at[p->sock] < 0)
 			vs_fail("harness:ledger", "socket %c was never closed",
 			    'A' + p->sock);
@@ -1575,6 +1597,174 @@ run_s8(void *arg)
 	vh_fini();
 }
 
+// ---- S9: the connection of a dialer is lost, on every transport: it dials again ---------------------
+// PUSH dialer (B) -> PULL listener (A), nng on both sides, over inproc / ipc / tcp / ws / udp.  The
+// connection is ended in one of four ways (the listening side closes the pipe, the dialing side
+// closes the pipe, the listening socket goes away and a new one listens on the same address, the
+// listener alone is closed and re-created), k times in a row.  After each loss the dialer must be
+// connected again (ADD_POST on its socket) no later than the larger reconnect time plus the
+// connection set-up itself, and a message must get through; event order / at-most-once / REM_POST
+// at close are checked by the ledger as everywhere.
+static const char *S9T[] = { "inproc", "ipc", "tcp", "ws", "udp" };
+enum { S9_PIPE_A, S9_PIPE_B, S9_SOCK_A, S9_LISTENER_A, S9_N };
+static const char *S9W[] = { "listener-side pipe close", "dialer-side pipe close",
+	"listening socket replaced", "listener replaced" };
+static void
+run_s9(void *arg)
+{
+	int          tran = (int) (intptr_t) arg;
+	nng_socket   a, b;
+	nng_listener l;
+	char         url[200], path[160] = "";
+	if (tran >= 2)
+		vs_tcp_grace_us = 1500;
+	vh_init(0);
+	ledger_reset();
+	VH_OK(nng_pull0_open(&a));
+	VH_OK(nng_push0_open(&b));
+	watch(0, a);
+	watch(1, b);
+	VH_OK(nng_socket_set_ms(a, NNG_OPT_RECVTIMEO, 50));
+	VH_OK(nng_socket_set_ms(b, NNG_OPT_SENDTIMEO, 50));
+	int M = vs_choose(VK_ENV, 2) ? 40 : 10;
+	VH_OK(nng_socket_set_ms(b, NNG_OPT_RECONNMINT, 10));
+	VH_OK(nng_socket_set_ms(b, NNG_OPT_RECONNMAXT, M));
+	switch (tran) {
+	case 0:
+		snprintf(url, sizeof(url), "inproc://c14s9");
+		VH_OK(nng_listen(a, url, &l, 0));
+		break;
+	case 1:
+		snprintf(path, sizeof(path), "%s/c14s9-%d", vx_rundir(), (int) getpid());
+		snprintf(url, sizeof(url), "ipc://%s", path);
+		VH_OK(nng_listen(a, url, &l, 0));
+		break;
+	default: {
+		static const char *F[] = { "tcp://127.0.0.1:%d", "ws://127.0.0.1:%d/s9",
+			"udp://127.0.0.1:%d" };
+		int                port = 0;
+		snprintf(url, sizeof(url), F[tran - 2], 0);
+		VH_OK(nng_listen(a, url, &l, 0));
+		VH_OK(nng_listener_get_int(l, NNG_OPT_BOUND_PORT, &port));
+		snprintf(url, sizeof(url), F[tran - 2], port);
+	} break;
+	}
+	VH_OK(nng_dial(b, url, NULL, 0));
+	vs_settle();
+	if (count_ev(1, NNG_PIPE_EV_ADD_POST) != 1 || count_ev(0, NNG_PIPE_EV_ADD_POST) != 1)
+		vs_fail("harness:setup", "no connection over %s", S9T[tran]);
+	int rounds = 1 + vs_choose(VK_ENV, 2);
+	char hist[120] = "";
+	for (int r = 0; r < rounds; r++) {
+		int how = vs_choose(VK_ENV, S9_N);
+		snprintf(hist + strlen(hist), sizeof(hist) - strlen(hist), "%s%s", r ? ", " : "",
+		    S9W[how]);
+		int      postsB = count_ev(1, NNG_PIPE_EV_ADD_POST);
+		nng_pipe p      = NNG_PIPE_INITIALIZER;
+		// the live pipe of the side in question: the last one with ADD_POST and no REM_POST
+		for (int i = 0; i < NPI; i++)
+			if (PI[i].sock == (how == S9_PIPE_B ? 1 : 0) && (PI[i].mask & B_POST) &&
+			    !(PI[i].mask & B_REM))
+				p.id = PI[i].id;
+		int64_t t0 = vs_now();
+		switch (how) {
+		case S9_PIPE_A:
+		case S9_PIPE_B:
+			if (nng_pipe_close(p) != 0)
+				vs_fail("harness:setup", "pipe close");
+			break;
+		case S9_SOCK_A:
+			close_sock(0);
+			vs_settle();
+			ledger_socket_reopened(0);
+			VH_OK(nng_pull0_open(&a));
+			watch(0, a);
+			VH_OK(nng_socket_set_ms(a, NNG_OPT_RECVTIMEO, 50));
+			if (path[0])
+				unlink(path);
+			VH_OK(nng_listen(a, url, &l, 0));
+			break;
+		default:
+			VH_OK(nng_listener_close(l));
+			vs_settle();
+			if (path[0])
+				unlink(path);
+			VH_OK(nng_listen(a, url, &l, 0));
+			break;
+		}
+		vs_settle();
+		// the dialer learns of the loss at once on these transports (close is announced);
+		// then at most M ms until it dials, and the handshake takes no virtual time
+		// (SP/UDP has no connection to break: when the listening end goes away without a
+		// word the dialer notices by inactivity - five missed refresh intervals - and that,
+		// not the reconnect time, bounds the wait)
+		// (SP/UDP has no connection to break: when the listening end goes away without a
+		// word and comes back, the dialer's next keep-alive simply creates the association
+		// again on the new listener - its own pipe may live on.  What must hold there is
+		// that traffic resumes within the keep-alive horizon.)
+		int got    = 0;
+		int bound  = M + 30;
+		int silent = tran == 4 && (how == S9_SOCK_A || how == S9_LISTENER_A);
+		for (int t = 0; t <= bound && !got && !silent; t += 5) {
+			got = count_ev(1, NNG_PIPE_EV_ADD_POST) > postsB;
+			if (!got) {
+				vs_sleep(5);
+				vs_settle();
+			}
+		}
+		for (int t = 0; t < 160 && silent && !got; t++) {
+			// 40 virtual seconds in steps of 250 ms
+			if (vh_send_nb(b, "s9", 2) == 0) {
+				vs_settle();
+				nng_msg *m = NULL;
+				if (nng_recvmsg(a, &m, 0) == 0) {
+					got = 1;
+					nng_msg_free(m);
+				}
+			}
+			if (!got)
+				vs_sleep(250);
+		}
+		char hb[80];
+		ledger_summary(1, hb, sizeof(hb));
+		if (!got)
+			vs_fail("C14:redial-missing",
+			    "%s: after %s the dialer has no new connection %lld ms later "
+			    "(reconnect times 10/%d ms; its pipe events: %s)",
+			    S9T[tran], hist, (long long) (vs_now() - t0), M, hb);
+		// and it works
+		int through = 0;
+		for (int t = 0; t < 4 && !through; t++) {
+			if (vh_send_nb(b, "s9", 2) != 0) {
+				vs_sleep(5);
+				continue;
+			}
+			vs_settle();
+			nng_msg *m = NULL;
+			if (nng_recvmsg(a, &m, 0) == 0) {
+				through = 1;
+				nng_msg_free(m);
+			}
+		}
+		if (!through)
+			vs_fail("C14:redial-missing",
+			    "%s: after %s the dialer reports a new connection but no message gets "
+			    "through",
+			    S9T[tran], hist);
+	}
+	vs_nontrivial();
+	close_sock(1);
+	close_sock(0);
+	vs_settle();
+	vs_sleep(20);
+	vs_settle();
+	ledger_final();
+	vs_outcome("%s %s", S9T[tran], hist);
+	if (path[0])
+		unlink(path);
+	vh_fini();
+}
+
 // ---- driver --------------------------------------------------------------------
 static void
 explore(const char *name, void (*fn)(void *), void *arg, int p, int sw, int t,
@@ -1648,6 +1838,10 @@ main(int argc, char **argv)
 				explore(strdup(name), run_s7, &s7[n7], 0, 0, 0, 0);
 				n7++;
 			}
+	}
+	for (int tr = 0; tr < 5; tr++) {
+		snprintf(name, sizeof(name), "S9-loss-redial-%s", S9T[tr]);
+		explore(strdup(name), run_s9, (void *) (intptr_t) tr, 0, 0, 0, 0);
 	}
 	for (int v = 0; v < 4; v++) {
 		snprintf(name, sizeof(name), "S8-early-loss-%s-%s", (v & 1) ? "ipc" : "tcp",
